@@ -191,6 +191,15 @@ func renderTypes(s []httpapi.Endpoint) string {
 		if ty := api.Contract.Return; ty != nil {
 			allTypes = append(allTypes, ty)
 		}
+		// the signatures also mention the types of the query parameters and of the JSON form field
+		for _, param := range api.Contract.InputQueryParams {
+			if param.Type != nil {
+				allTypes = append(allTypes, param.Type)
+			}
+		}
+		if json := api.Contract.InputForm.JSON; json.Name != "" && json.Type != nil {
+			allTypes = append(allTypes, json.Type)
+		}
 	}
 	return generator.WriteDeclarations(generateTypes(allTypes))
 }
